@@ -23,7 +23,9 @@ ArgPool == IF Tier = "quick"
            THEN {r \in ValidPool : r.ps = {} /\ r.us = {}}
                 \cup {r \in ValidPool : r.us = {} /\ r.ps # {} /\ r.p = <<1>>}
                 \cup {r \in ValidPool : r.ps = {} /\ r.us # {} /\ r.u = <<1>>}
-           ELSE {r \in ValidPool : r.ps = {} \/ r.us = {}}
+           ELSE {r \in ValidPool : r.ps = {} /\ r.us = {}}
+                \cup {r \in ValidPool : r.us = {} /\ r.ps # {} /\ r.p \in {<<>>, <<1>>}}
+                \cup {r \in ValidPool : r.ps = {} /\ r.us # {} /\ r.u = <<1>>}
 Probes == StringsUpTo({1, 2, 3, 4}, 2)
 
 MCNext ==
